@@ -10,6 +10,9 @@ out=${KM_OUT:-/verif/seeded/KILLMATRIX.txt}
 for d in $verif/seeded/*/; do
   n=$(basename "$d")
   [ -f "$d/patch.diff" ] || continue
+  if python3 -c "import json,sys;sys.exit(0 if json.load(open('$d/meta.json')).get('superseded') else 1)"; then
+    echo "SUPERSEDED $n (see its meta.json)" >> "$out.tmp"; continue
+  fi
   prop=$(python3 -c "import json;print(json.load(open('$d/meta.json'))['property'])")
   checks="$prop"
   extra=$(python3 -c "import json;print(' '.join(json.load(open('$d/meta.json')).get('also_run',[])))")
